@@ -770,7 +770,9 @@ def r02_11(prog, rep, rid='R02.11'):
     A = [smap[id(c)].id for c in made]
     picks = _slot_picks(f, g, smap, made)
     for kind in sorted(_RR_COUNT):
-        if not any(k == kind for P, c, k, kill in picks):
+        # (a Slot(..) that is not given the kind at all is R02.17's finding)
+        if not any(k == kind for P, c, k, kill in picks) and \
+                any(kw.arg == kind for c in made for kw in c.keywords):
             raise AnalysisError('UNRECOGNISED-IDIOM %s: no pick of %s found '
                                 '(<list>.append whose list becomes Slot(%s=))'
                                 % (f.where, kind, kind))
@@ -853,25 +855,213 @@ def r02_11(prog, rep, rid='R02.11'):
                   history='RankRequirements(n_gpus=1, gpu_occupation=0.5, '
                   'core_occupation=1.0): the rank holds a whole GPU')
     for c in made:
-        for kw in c.keywords:
-            if kw.arg not in _SLOT_FED:
+        for kind, vals in sorted(slot_fields(prog, f, g, smap, c).items()):
+            if kind not in _SLOT_FED:
                 continue
-            base, attr = _SLOT_FED[kw.arg]
+            base, attr = _SLOT_FED[kind]
             base = rr if base == 'rr' else base
             others = ['%s.%s' % (rr if b2 == 'rr' else b2, a2)
-                      for k2, (b2, a2) in _SLOT_FED.items() if k2 != kw.arg]
-            rep.check(fed_by(kw.value, '%s.%s' % (base, attr), others),
-                      rid, f,
-                      'Node.find_slot: Slot(%s=) is %s.%s' % (kw.arg, base,
-                                                              attr),
-                      construct='find_slot:slot:%s' % kw.arg,
-                      message='Node.find_slot builds the slot with %s=`%s`; '
-                      'the granted %s must be %s.%s' % (
-                          kw.arg, short(kw.value, 40), kw.arg, base, attr),
-                      loc=f.loc(c),
-                      history='find_slot(RankRequirements(n_cores=1, lfs=10, '
-                      'mem=20)): the slot (and the debit of the node) carries '
-                      'a different %s than was asked for' % kw.arg)
+                      for k2, (b2, a2) in _SLOT_FED.items() if k2 != kind]
+            for value, where in vals:
+                rep.check(fed_by(value, '%s.%s' % (base, attr), others),
+                          rid, f,
+                          'Node.find_slot: Slot(%s=) is %s.%s' % (kind, base,
+                                                                  attr),
+                          construct='find_slot:slot:%s' % kind,
+                          message='Node.find_slot builds the slot with %s=`%s`'
+                          '; the granted %s must be %s.%s' % (
+                              kind, short(value, 40), kind, base, attr),
+                          loc=f.loc(where),
+                          history='find_slot(RankRequirements(n_cores=1, '
+                          'lfs=10, mem=20)): the slot (and the debit of the '
+                          'node) carries a different %s than was asked for'
+                          % kind)
+
+
+# ------------------------------------------------------------------------------
+# R02.17  every part of a granted share is carried into the slot.  Slot has a
+#         default for every field (0 / empty list / node 0), so a field the
+#         constructor is not given - and which is not stored on the very
+#         object before it is handed on - silently reads as "nothing asked
+#         for": the rank is granted less than the request and the node is not
+#         debited for it.
+#
+_SLOT_KINDS = ('cores', 'gpus', 'lfs', 'mem', 'node_index', 'node_name')
+
+
+def _field_key(prog, e):
+    """the field a subscript key names: a string constant or a class level
+    constant of resource_config (`Slot.MEM`)"""
+    if isinstance(e, ast.Constant) and isinstance(e.value, str):
+        return e.value
+    if isinstance(e, ast.Attribute) and isinstance(e.value, ast.Name):
+        k = prog.module(NODE_CLS[0]).classes.get(e.value.id)
+        if k is not None:
+            v = k.consts.get(e.attr)
+            if isinstance(v, ast.Constant) and isinstance(v.value, str):
+                return v.value
+    return None
+
+
+def _dict_items(prog, e):
+    """[(field, value)] of a dict literal / dict(k=v) call, None if it is
+    neither or a key cannot be read"""
+    out = []
+    if isinstance(e, ast.Dict):
+        for k, v in zip(e.keys, e.values):
+            key = _field_key(prog, k) if k is not None else None
+            if key is None:
+                return None
+            out.append((key, v))
+        return out
+    if isinstance(e, ast.Call) and dotted(e.func) == 'dict' and not e.args:
+        for kw in e.keywords:
+            if kw.arg is None:
+                return None
+            out.append((kw.arg, kw.value))
+        return out
+    return None
+
+
+def slot_fields(prog, f, g, smap, call, leaves=None):
+    """{field: [(value expr, ast node for the location)]} of the object built
+    by `call` (Slot(..)) at the time it leaves the function or is handed to a
+    callee: keywords of the constructor (also through `**{..}`), and stores
+    `<name>.<field> = v` / `<name>[<field>] = v` / `<name>.update(..)` on a
+    name that holds this very object, at a place from which every use (the
+    return, the call of a method of the node) is still to come (may-analysis:
+    a store under a guard counts).  leaves, if given,
+    receives whether the object is returned or handed to a callee at all"""
+    A = smap[id(call)]
+    out = {}
+    if call.args:
+        raise AnalysisError('UNRECOGNISED-IDIOM %s: `%s` is built from a '
+                            'positional argument' % (f.where, short(call, 50)))
+    for kw in call.keywords:
+        if kw.arg is not None:
+            out.setdefault(kw.arg, []).append((kw.value, call))
+            continue
+        items = _dict_items(prog, _hoisted(g, kw.value, A.id)[0])
+        if items is None:
+            raise AnalysisError('UNRECOGNISED-IDIOM %s: `%s` is built from '
+                                '`**%s`, which is not a dict literal'
+                                % (f.where, short(call, 50),
+                                   short(kw.value, 30)))
+        for k, v in items:
+            out.setdefault(k, []).append((v, call))
+
+    def holds(e, at):
+        return isinstance(e, ast.Name) and A.id in origin(g, e.id, at)
+
+    after = g.reachable(A.id)
+    # uses: the object is returned or handed to a method of the node (debit)
+    uses = set()
+    for n in g.nodes:
+        if n.id not in after or n.id == A.id or n.ast is None or \
+                n.kind != 'stmt':
+            continue
+        for x in walk(n.ast):
+            if isinstance(x, ast.Return) and x.value is not None and \
+                    holds(x.value, n.id):
+                uses.add(n.id)
+            elif isinstance(x, ast.Call) and \
+                    isinstance(x.func, ast.Attribute) and \
+                    isinstance(x.func.value, ast.Name) and \
+                    x.func.value.id == 'self':
+                if any(holds(a, n.id) for a in list(x.args) +
+                       [k.value for k in x.keywords]):
+                    uses.add(n.id)
+    for n in g.nodes:
+        if n.id not in after or n.id == A.id or n.kind != 'stmt' or \
+                n.ast is None:
+            continue
+        if not uses <= g.reachable(n.id):
+            continue        # too late for the debit or for the caller
+        got = []
+        if isinstance(n.ast, (ast.Assign, ast.AnnAssign, ast.AugAssign)):
+            tgts = n.ast.targets if isinstance(n.ast, ast.Assign) \
+                else [n.ast.target]
+            for t in tgts:
+                if isinstance(t, ast.Attribute) and holds(t.value, n.id):
+                    got.append((t.attr, n.ast.value))
+                elif isinstance(t, ast.Subscript) and holds(t.value, n.id):
+                    key = _field_key(prog, t.slice)
+                    if key is None:
+                        raise AnalysisError(
+                            'UNRECOGNISED-IDIOM %s: `%s` stores a field of '
+                            'the slot under a key that is not a constant'
+                            % (f.where, short(n.ast, 50)))
+                    got.append((key, n.ast.value))
+        elif isinstance(n.ast, ast.Expr) and isinstance(n.ast.value, ast.Call):
+            x = n.ast.value
+            if isinstance(x.func, ast.Attribute) and x.func.attr == 'update' \
+                    and holds(x.func.value, n.id):
+                items = []
+                for a in x.args:
+                    its = _dict_items(prog, _hoisted(g, a, n.id)[0])
+                    if its is None:
+                        raise AnalysisError(
+                            'UNRECOGNISED-IDIOM %s: `%s` updates the slot '
+                            'from something that is not a dict literal'
+                            % (f.where, short(x, 50)))
+                    items += its
+                for kw in x.keywords:
+                    if kw.arg is None:
+                        raise AnalysisError(
+                            'UNRECOGNISED-IDIOM %s: `%s`' % (f.where,
+                                                             short(x, 50)))
+                    items.append((kw.arg, kw.value))
+                got += items
+        for k, v in got:
+            out.setdefault(k, []).append((v, n.ast))
+    if leaves is not None:
+        leaves.append(bool(uses) or isinstance(A.ast, ast.Return))
+    return out
+
+
+def r02_17(prog, rep, rid='R02.17'):
+    rep.rule(rid, 'Node.find_slot: the slot that is returned (and debited '
+             'from the node) carries every part of the share - cores, gpus, '
+             'lfs, mem, node index and node name - none is left to the '
+             'default of Slot', minimum=6)
+    K = prog.cls(*NODE_CLS)
+    f = prog.find_method(K, 'find_slot')
+    if f is None:
+        raise AnalysisError('Node.find_slot not found')
+    rep.saw(f)
+    g = cfg_of(f)
+    smap = I.stmt_node_map(g)
+    made = [c for c in calls_in(f.node) if dotted(c.func) == 'Slot' and
+            id(c) in smap]
+    if not made:
+        raise AnalysisError('UNRECOGNISED-IDIOM %s: no Slot(..) is built'
+                            % f.where)
+    params = [p for p in f.params if p != 'self']
+    rr = params[0] if params else 'rr'
+    asked = {'cores': '%s.n_cores cores' % rr, 'gpus': '%s.n_gpus GPUs' % rr,
+             'lfs': '%s.lfs' % rr, 'mem': '%s.mem' % rr,
+             'node_index': 'the index of this node',
+             'node_name': 'the name of this node'}
+    for c in made:
+        leaves = []
+        have = slot_fields(prog, f, g, smap, c, leaves)
+        if not leaves[0]:
+            continue        # a scratch object: never returned nor handed on
+        for kind in _SLOT_KINDS:
+            rep.check(kind in have, rid, f,
+                      'Node.find_slot: `%s` carries %s' % (short(c, 30), kind),
+                      construct='find_slot:slot:%s:carried' % kind,
+                      message='Node.find_slot: the slot built by `%s` is '
+                      'never given its `%s` (neither as an argument of the '
+                      'constructor nor by a store on the object before it is '
+                      'returned / debited): the field reads as the default of '
+                      'Slot, whatever the request asks for (%s), and '
+                      'allocate_slot debits the node by that default'
+                      % (short(c, 60), kind, asked[kind]), loc=f.loc(c),
+                      history='node with mem=100: find_slot('
+                      'RankRequirements(n_cores=1, mem=80)) twice -> both '
+                      'ranks are granted, each slot says %s = default, the '
+                      'node still shows its full %s' % (kind, kind))
 
 
 # ------------------------------------------------------------------------------
@@ -3316,6 +3506,10 @@ def run(prog, rep, tier):
         'R02.11: the request type names its fields n_cores / n_gpus / '
         'core_occupation / gpu_occupation / lfs / mem (RankRequirements), '
         'the node its pools self.cores / self.gpus; explicit data flow only',
+        'R02.17: a field of Slot that is neither given to the constructor '
+        'nor stored on the object (attribute, constant key, update()) before '
+        'the object is returned / passed to a method of the node reads as '
+        'the default of Slot; a store under a guard counts as given',
         'R02.12: the callers of _try_allocation treat a true result as '
         '"placed" (base._schedule_incoming, lazy_bisect in '
         '_schedule_waitpool, continuous_colo / continuous_ordered)',
@@ -3345,6 +3539,7 @@ def run(prog, rep, tier):
     rep.attempt(r02_14, prog, rep)
     rep.attempt(r02_15, prog, rep)
     rep.attempt(r02_16, prog, rep)
+    rep.attempt(r02_17, prog, rep)
     from .c01 import r02_8
     rep.attempt(r02_8, prog, rep)
     # R02.3 information
@@ -3844,6 +4039,22 @@ MUTATIONS = [
     dict(name='R02.16 jsrun: the history is cleared on release', rules=('R02.16',), edits=[
         (_J, "        for task in ru.as_list(tasks):\n            self._change_slot_states(task['slots'], rpc.FREE)\n",
              "        for task in ru.as_list(tasks):\n            self._change_slot_states(task['slots'], rpc.FREE)\n\n        self._colo_history.clear()\n")]),
+    dict(name='R02.17 find_slot: the slot is not given the mem of the request (seed C02-j4)', rules=('R02.17',), edits=[
+        (_N, "            slot = Slot(cores=cores, gpus=gpus, lfs=rr.lfs, mem=rr.mem,", "            slot = Slot(cores=cores, gpus=gpus, lfs=rr.lfs,")]),
+    dict(name='R02.17 find_slot: the slot is not given the lfs of the request', rules=('R02.17',), edits=[
+        (_N, "            slot = Slot(cores=cores, gpus=gpus, lfs=rr.lfs, mem=rr.mem,", "            slot = Slot(cores=cores, gpus=gpus, mem=rr.mem,")]),
+    dict(name='R02.17 find_slot: the slot is not given the picked gpus', rules=('R02.17',), edits=[
+        (_N, "            slot = Slot(cores=cores, gpus=gpus, lfs=rr.lfs, mem=rr.mem,", "            slot = Slot(cores=cores, lfs=rr.lfs, mem=rr.mem,")]),
+    dict(name='R02.17 find_slot: the slot is not given the node index', rules=('R02.17',), edits=[
+        (_N, "                        node_index=self.index, node_name=self.name)\n            self.allocate_slot(slot, _check=False)", "                        node_name=self.name)\n            self.allocate_slot(slot, _check=False)")]),
+    dict(name='R02.17 find_slot: mem stored on the slot only after it was debited and on another object', rules=('R02.17',), edits=[
+        (_N, '            slot = Slot(cores=cores, gpus=gpus, lfs=rr.lfs, mem=rr.mem,\n                        node_index=self.index, node_name=self.name)\n', "            slot = Slot(cores=cores, gpus=gpus, lfs=rr.lfs,\n                        node_index=self.index, node_name=self.name)\n            other = Slot()\n            other.mem = rr.mem\n")]),
+    dict(name='R02.17 find_slot: fields through **dict, mem left out', rules=('R02.17',), edits=[
+        (_N, '            slot = Slot(cores=cores, gpus=gpus, lfs=rr.lfs, mem=rr.mem,\n                        node_index=self.index, node_name=self.name)\n', "            amounts = {'lfs': rr.lfs}\n            slot = Slot(cores=cores, gpus=gpus, node_index=self.index,\n                        node_name=self.name, **amounts)\n")]),
+    dict(name='R02.11 find_slot: mem stored on the slot after construction is the lfs of the request', rules=('R02.11',), edits=[
+        (_N, '            slot = Slot(cores=cores, gpus=gpus, lfs=rr.lfs, mem=rr.mem,\n                        node_index=self.index, node_name=self.name)\n', "            slot = Slot(cores=cores, gpus=gpus, lfs=rr.lfs,\n                        node_index=self.index, node_name=self.name)\n            slot.mem = rr.lfs\n")]),
+    dict(name='R02.17 find_slot: mem stored on the slot only after the node was debited', rules=('R02.17',), edits=[
+        (_N, "            slot = Slot(cores=cores, gpus=gpus, lfs=rr.lfs, mem=rr.mem,\n                        node_index=self.index, node_name=self.name)\n            self.allocate_slot(slot, _check=False)\n", "            slot = Slot(cores=cores, gpus=gpus, lfs=rr.lfs,\n                        node_index=self.index, node_name=self.name)\n            self.allocate_slot(slot, _check=False)\n            slot.mem = rr.mem\n")]),
 ]
 
 
@@ -4036,4 +4247,16 @@ SILENT = [
     dict(name='colocate history and tagged nodes bound in one statement', edits=[
         (_C, "        self._colo_history = dict()\n        self._tagged_nodes = set()\n        self._scattered",
              "        self._colo_history, self._tagged_nodes = dict(), set()\n        self._scattered")]),
+    dict(name='find_slot: mem / lfs stored on the slot object after construction, before the debit', edits=[
+        (_N, '            slot = Slot(cores=cores, gpus=gpus, lfs=rr.lfs, mem=rr.mem,\n                        node_index=self.index, node_name=self.name)\n', "            slot = Slot(cores=cores, gpus=gpus,\n                        node_index=self.index, node_name=self.name)\n            slot.lfs = rr.lfs\n            slot['mem'] = rr.mem\n")]),
+    dict(name='find_slot: mem stored under the class constant, only when the request asks for some', edits=[
+        (_N, '            slot = Slot(cores=cores, gpus=gpus, lfs=rr.lfs, mem=rr.mem,\n                        node_index=self.index, node_name=self.name)\n', "            slot = Slot(cores=cores, gpus=gpus, lfs=rr.lfs,\n                        node_index=self.index, node_name=self.name)\n            if rr.mem:\n                slot[Slot.MEM] = rr.mem\n")]),
+    dict(name='find_slot: amounts of the slot through a **dict local', edits=[
+        (_N, '            slot = Slot(cores=cores, gpus=gpus, lfs=rr.lfs, mem=rr.mem,\n                        node_index=self.index, node_name=self.name)\n', "            amounts = {'lfs': rr.lfs, 'mem': rr.mem}\n            slot = Slot(cores=cores, gpus=gpus, node_index=self.index,\n                        node_name=self.name, **amounts)\n")]),
+    dict(name='find_slot: slot built empty and filled by update() and stores, returned through an alias', edits=[
+        (_N, '            slot = Slot(cores=cores, gpus=gpus, lfs=rr.lfs, mem=rr.mem,\n                        node_index=self.index, node_name=self.name)\n' + "            self.allocate_slot(slot, _check=False)\n\n            return slot\n", "            found = Slot(cores=cores, gpus=gpus)\n            found.update(dict(lfs=rr.lfs, mem=rr.mem))\n            found.node_index = self.index\n            found.node_name  = self.name\n            slot = found\n            self.allocate_slot(slot, _check=False)\n\n            return slot\n")]),
+    dict(name='find_slot: keywords of Slot(..) reordered, mem through a local', edits=[
+        (_N, '            slot = Slot(cores=cores, gpus=gpus, lfs=rr.lfs, mem=rr.mem,\n                        node_index=self.index, node_name=self.name)\n', "            mem  = rr.mem\n            slot = Slot(node_name=self.name, node_index=self.index, mem=mem,\n                        lfs=rr.lfs, gpus=gpus, cores=cores)\n")]),
+    dict(name='find_slot: slot logged before its mem / node identity are stored on it', edits=[
+        (_N, "            slot = Slot(cores=cores, gpus=gpus, lfs=rr.lfs, mem=rr.mem,\n                        node_index=self.index, node_name=self.name)\n", "            slot = Slot(cores=cores, gpus=gpus, lfs=rr.lfs)\n            print('found', slot)\n            slot.mem        = rr.mem\n            slot.node_index = self.index\n            slot.node_name  = self.name\n")]),
 ]
